@@ -1,11 +1,13 @@
 #!/bin/sh
-# usage: tools/try_mutant.sh <patch.diff> <PROP> [tier]   - applies the patch to /repo, runs the check, reverts.
+# usage: tools/try_mutant.sh <patch.diff> <PROP> [tier]
+# Applies the patch in a scratch git worktree of /repo (never in /repo itself), runs the check against it, removes it.
 set -u
 P=$(realpath "$1"); PROP=$2; TIER=${3:-quick}
-cd /repo || exit 2
-git diff --quiet || { echo "repo dirty"; exit 2; }
-git apply "$P" || { echo "patch does not apply"; exit 2; }
-cd /verif && ./check "$PROP" --tier "$TIER" > /tmp/mutant.out 2>&1; rc=$?
-git -C /repo checkout -- . ; git -C /repo clean -fdq
-tail -3 /tmp/mutant.out
+W=$(mktemp -d /tmp/mw-XXXXXX); rmdir "$W"
+git -C /repo worktree add -q --detach "$W" HEAD || exit 2
+( cd "$W" && git apply "$P" ) || { echo "patch does not apply: $P"; git -C /repo worktree remove --force "$W"; exit 2; }
+cd /verif && VERIF_REPO="$W" ./check "$PROP" --tier "$TIER" > "$W.out" 2>&1; rc=$?
+git -C /repo worktree remove --force "$W"; git -C /repo worktree prune
+grep -E "^(VIOLATION|ERROR|PASS|FAIL|KNOWN)" "$W.out" | head -4
+rm -f "$W.out"
 echo "mutant $(basename $(dirname $P))/$(basename $P) on $PROP -> rc=$rc"
